@@ -25,8 +25,11 @@ class Contract:
     def __init__(self, qual, params=None, requires=(), ensures=(), raises=None, modifies=(), returns=None, let=None,
                  inline=False, spec=None, drops=(), props=(), name=None, exc_ensures=None, hints=(),
                  use_at_calls=True, expect_raise_paths=None, path_assumes=(), trusted=False, note=None,
-                 allow_other_exc=(), overrides=None, max_paths=400, timeout_s=None, kwargs_call=None, pure=False, varargs=None, harness=None, module=None, native_patches=None, loop=None, loops=None, sum_scales=(), inline_callees=(), pure_on=None, loop_returns=()):
+                 allow_other_exc=(), overrides=None, max_paths=400, timeout_s=None, kwargs_call=None, pure=False, varargs=None, harness=None, module=None, native_patches=None, loop=None, loops=None, sum_scales=(), inline_callees=(), pure_on=None, loop_returns=(), prop_clauses=None):
         self.loop_returns = tuple(loop_returns)
+        # property id -> prefixes of the clause names that carry THAT property (a contract shared by several properties is
+        # judged, for each of them, on the clauses that property rests on; absent = all clauses)
+        self.prop_clauses = prop_clauses or {}
         self.pure_on = pure_on
         self.inline_callees = tuple(inline_callees)
         self.sum_scales = list(sum_scales)
@@ -712,7 +715,7 @@ class Engine:
                 'file': os.path.relpath(m.path, self.repo.root), 'line': node.lineno,
                 'sha256': self.repo.sha_of(m, node) if not c.harness else None, 'vcs': [r.to_json() for r in results], 'paths': len(paths),
                 'path_summaries': paths, 'dropped': sorted(dropped), 'wall_s': round(time.time() - t0, 3),
-                'props': c.props, 'trusted': c.trusted,
+                'props': c.props, 'trusted': c.trusted, 'prop_clauses': c.prop_clauses,
                 'replay_info': {'spec': c.spec, 'let': c.let, 'requires': c.requires, 'kind': kind, 'harness': c.harness,
                                 'module': c.module, 'native_patches': c.native_patches, 'loop': c.loop,
                                 'params': list(c.params.keys())}}
